@@ -384,17 +384,98 @@ func pickErr(hs *peer.HS) error {
 	return hs.EchoErr
 }
 
+// c19VerificationKnobs: two identical connections under each of the certificate-verification knobs. The
+// knobs change how the certificate is checked, not whether a cached session may be offered: whenever
+// this client resumes at this version in the plain configuration it must resume under the knob too.
+func c19VerificationKnobs() *explore.Scenario {
+	parrots := c19Parrots()
+	knobs := []string{"plain", "InsecureServerNameToVerify=*", "InsecureServerNameToVerify=<the name>", "InsecureServerNameToVerify=<the name>, another ServerName", "InsecureSkipTimeVerify", "InsecureSkipVerify"}
+	return &explore.Scenario{
+		Name: "two-connections-under-verification-knobs",
+		Run: func(x *explore.X) (r explore.Result) {
+			p := parrots[x.Choose("parrot", len(parrots))]
+			vers := []uint16{tls.VersionTLS12, tls.VersionTLS13}[x.Choose("version", 2)]
+			knob := 1 + x.Choose("knob", len(knobs)-1)
+			h0, err := p.client.probeHello()
+			if err != nil {
+				r.Obs = "no-hello"
+				return
+			}
+			o := offerOf(h0)
+			if !has16(o.versions, vers) {
+				r.Obs = "version-not-offered"
+				return
+			}
+			pair := func(knob int) (second *peer.HS, ok bool) {
+				ccfg := p.client.config("a.example")
+				ccfg.ClientSessionCache = tls.NewLRUClientSessionCache(8)
+				ccfg.OmitEmptyPsk = true
+				switch knob {
+				case 1:
+					ccfg.InsecureServerNameToVerify = "*"
+				case 2:
+					ccfg.InsecureServerNameToVerify = "a.example"
+				case 3:
+					ccfg.ServerName = "front.invalid"
+					ccfg.InsecureServerNameToVerify = "a.example"
+				case 4:
+					ccfg.InsecureSkipTimeVerify = true
+				case 5:
+					ccfg.InsecureSkipVerify = true
+				}
+				scfg := peer.ServerConfig()
+				if !offersCert(o, "ecdsa") {
+					scfg = peer.ServerConfig(peer.Fix().RSA)
+				}
+				scfg.MaxVersion = vers
+				for i := 0; i < 2; i++ {
+					hs := peer.Run(ccfg, p.client.ID, scfg, peer.Opts{Prepare: p.client.prepare(), Echo: true})
+					if hs.CPanic != "" {
+						r.Violate("C19|panic", "%s %04x %s: %s", p.name, vers, knobs[knob], truncStr(hs.CPanic, 300))
+						return nil, false
+					}
+					if !(hs.OK() && hs.EchoOK) {
+						r.Violate(fmt.Sprintf("C19|knob-connection-fails|%s|conn=%d", knobs[knob], i+1), "%s %04x %s: connection %d: client %v / server %v", p.name, vers, knobs[knob], i+1, hs.CErr, hs.SErr)
+						return nil, false
+					}
+					second = hs
+				}
+				return second, true
+			}
+			base, ok := pair(0)
+			if !ok {
+				return
+			}
+			got, ok := pair(knob)
+			if !ok {
+				return
+			}
+			r.Nontrivial = true
+			r.Class = fmt.Sprintf("%s|%04x|%s", p.name, vers, knobs[knob])
+			b, g := base.U.ConnectionState().DidResume, got.U.ConnectionState().DidResume
+			if b {
+				r.Count("resumed", 1)
+			}
+			if b && !g {
+				r.Violate(fmt.Sprintf("C19|not-resumed-under-knob|%s", knobs[knob]), "%s at %04x: the second of two identical connections resumes in the plain configuration but not with %s", p.name, vers, knobs[knob])
+			}
+			r.Obs = fmt.Sprintf("plain=%v|knob=%v", b, g)
+			return
+		},
+	}
+}
+
 func c19Scenarios(thorough bool) []*explore.Scenario {
 	if thorough {
-		return []*explore.Scenario{c19Scenario("connection-histories", 4, false), c19Scenario("two-connections-explicit-build-orders", 2, true)}
+		return []*explore.Scenario{c19Scenario("connection-histories", 4, false), c19Scenario("two-connections-explicit-build-orders", 2, true), c19VerificationKnobs()}
 	}
-	return []*explore.Scenario{c19Scenario("connection-histories", 3, false), c19Scenario("two-connections-explicit-build-orders", 2, true)}
+	return []*explore.Scenario{c19Scenario("connection-histories", 3, false), c19Scenario("two-connections-explicit-build-orders", 2, true), c19VerificationKnobs()}
 }
 
 func init() {
 	register(&Prop{ID: "C19", Level: "model_checking", Variant: "A", Scenarios: c19Scenarios,
 		Run: func(c *explore.Check, thorough bool) {
-			c.Rule = "histories of 3 (4) connections sharing one ClientSessionCache and one server ticket key: the first two steps range over the full product of 7 clients (Chrome_100, Chrome_100_PSK, Chrome_112_PSK_Shuf, Firefox_120, Golang, custom TLS 1.2 with and without extended_master_secret) x server {TLS 1.2, TLS 1.3, TLS 1.3 answering with an HRR} x server name {a, b} x clock {+1 min, +8 days}; later steps repeat the previous step with <=2 deviations; every step handshakes, echoes (absorbing NewSessionTicket) and closes; plus all 2-connection histories (servers additionally: TLS 1.3 forced to TLS_CHACHA20_POLY1305_SHA256) with the second connection reached by {Handshake, BuildHandshakeState+Handshake, BuildHandshakeState+SetClientRandom+Handshake, BuildHandshakeState twice+Handshake, BuildHandshakeStateWithoutSession+Handshake, BuildHandshakeStateWithoutSession+BuildHandshakeState+Handshake}. Oracle per step against a reference cache: must resume iff an unexpired session of the same parrot/name/version exists and the spec carries the needed extension (also through an HRR); DidResume agrees on both ends; pre_shared_key last and well-formed; no handshake failure at all; no ticket issued for one name offered to another; after a failed resumption attempt the history goes on and the session that failed is never offered again. distinct = history"
+			c.Rule = "histories of 3 (4) connections sharing one ClientSessionCache and one server ticket key: the first two steps range over the full product of 7 clients (Chrome_100, Chrome_100_PSK, Chrome_112_PSK_Shuf, Firefox_120, Golang, custom TLS 1.2 with and without extended_master_secret) x server {TLS 1.2, TLS 1.3, TLS 1.3 answering with an HRR} x server name {a, b} x clock {+1 min, +8 days}; later steps repeat the previous step with <=2 deviations; every step handshakes, echoes (absorbing NewSessionTicket) and closes; plus all 2-connection histories (servers additionally: TLS 1.3 forced to TLS_CHACHA20_POLY1305_SHA256) with the second connection reached by {Handshake, BuildHandshakeState+Handshake, BuildHandshakeState+SetClientRandom+Handshake, BuildHandshakeState twice+Handshake, BuildHandshakeStateWithoutSession+Handshake, BuildHandshakeStateWithoutSession+BuildHandshakeState+Handshake}. Oracle per step against a reference cache: must resume iff an unexpired session of the same parrot/name/version exists and the spec carries the needed extension (also through an HRR); DidResume agrees on both ends; pre_shared_key last and well-formed; no handshake failure at all; no ticket issued for one name offered to another; after a failed resumption attempt the history goes on and the session that failed is never offered again; 7 clients x {1.2, 1.3} x 5 verification knobs (InsecureServerNameToVerify * / the name / the name with another ServerName, InsecureSkipTimeVerify, InsecureSkipVerify): the second of two identical connections resumes whenever it does in the plain configuration. distinct = history"
 			c.Assumptions = []string{"reference resumption table (mc/props/c19.go) written from the property statement; ticket lifetime 7 days", "OmitEmptyPsk is on for every client"}
 			runAll(c, c19Scenarios(thorough), 0)
 			c.Gate(c.Total.Counters["resumed"] > 500, "non-vacuity: %d resumed connections", c.Total.Counters["resumed"])
